@@ -36,9 +36,14 @@ def log(*a):
 
 def sh(cmd, cwd=None, timeout=3600, env=None, stdin=None, stdout=None):
     t0 = time.time()
-    p = subprocess.run(cmd, cwd=cwd, shell=isinstance(cmd, str), env=env or os.environ, timeout=timeout,
-                       stdin=stdin, stdout=stdout if stdout is not None else subprocess.PIPE,
-                       stderr=subprocess.STDOUT if stdout is None else subprocess.PIPE, text=(stdout is None))
+    try:
+        p = subprocess.run(cmd, cwd=cwd, shell=isinstance(cmd, str), env=env or os.environ, timeout=timeout,
+                           stdin=stdin, stdout=stdout if stdout is not None else subprocess.PIPE,
+                           stderr=subprocess.STDOUT if stdout is None else subprocess.PIPE, text=(stdout is None))
+    except subprocess.TimeoutExpired as e:
+        # a hung harness / build is reported (as a broken run), never a crash of the check itself
+        out = e.stdout if isinstance(e.stdout, str) else (e.stdout.decode(errors="replace") if e.stdout else "")
+        return 124, (out or "") + "\nTIMEOUT after %s s: %s" % (timeout, cmd if isinstance(cmd, str) else " ".join(map(str, cmd))[:300]), time.time() - t0
     return p.returncode, (p.stdout if stdout is None else (p.stderr.decode() if p.stderr else "")), time.time() - t0
 
 
@@ -391,7 +396,7 @@ def run_once(cfg, exe, seed, n, tier, workdir, tag, only=None, extra=None):
     mem = cfg.get("mem_limit_kb")
     if mem:
         argv = ["bash", "-c", "ulimit -v %d; exec \"$@\"" % mem, "x"] + argv
-    rc, out, dt = sh(argv, cwd=HARNESS, env=GOENV, timeout=cfg.get("harness_timeout", 3000))
+    rc, out, dt = sh(argv, cwd=HARNESS, env=GOENV, timeout=cfg.get("harness_timeout", 1500))
     res = {"outdir": outdir, "harness_rc": rc, "harness_log": out[-4000:], "seed": seed, "n": n, "harness_s": dt}
     if rc != 0 or not os.path.exists(os.path.join(outdir, "impl.txt")):
         res["error"] = "harness failed"
@@ -399,7 +404,11 @@ def run_once(cfg, exe, seed, n, tier, workdir, tag, only=None, extra=None):
     model = os.path.join(ROOT, "bin", "model_" + cfg["id"])
     t0 = time.time()
     with open(os.path.join(outdir, "in.txt"), "rb") as fi, open(os.path.join(outdir, "model.txt"), "wb") as fo:
-        p = subprocess.run([model] + list(cfg.get("model_args", [])), stdin=fi, stdout=fo, stderr=subprocess.PIPE, timeout=cfg.get("model_timeout", 3000))
+        try:
+            p = subprocess.run([model] + list(cfg.get("model_args", [])), stdin=fi, stdout=fo, stderr=subprocess.PIPE, timeout=cfg.get("model_timeout", 3000))
+        except subprocess.TimeoutExpired:
+            res["error"] = "model driver timed out"
+            return res
     res["model_s"] = time.time() - t0
     if p.returncode != 0:
         res["error"] = "model driver failed: " + p.stderr.decode()[-2000:]
